@@ -106,7 +106,7 @@ Section Encoder.
                  | PList l =>
                      do vals <- (if legacy_aux fl then each l else Ok l);
                      Ok (PDict [(K "type", K "list"); (K "values", PList vals)])
-                 | PDict kvs =>
+                 | PDict kvs | PObj CQuasiDist (PDict kvs :: _) =>     (* isinstance(…, dict): also a dict subclass *)
                      do vals <- (if legacy_aux fl then each_val kvs
                                  else Ok (map (fun kv => PList [fst kv; snd kv]) kvs));
                      Ok (PDict [(K "type", K "dict"); (K "values", PList vals)])
@@ -182,7 +182,8 @@ Definition result_own_keys : list string :=
 (* the aux_operators_evaluated part of parse_evolving_ansatz_result *)
 Definition unwrap_aux (a : pyval) : result pyval :=
   match a with
-  | PDict kvs =>                                          (* isinstance(aux_operators_evaluated, dict) *)
+  | PDict kvs | PObj CQuasiDist (PDict kvs :: _) =>       (* isinstance(aux_operators_evaluated, dict): also a dict
+                                                             subclass (a QuasiDistribution has no "type" key: KeyError) *)
       do t <- pdict_get (K "type") kvs;
       if py_eqb t (K "list") then pdict_get (K "values") kvs
       else do t' <- pdict_get (K "type") kvs;
